@@ -14,7 +14,8 @@
 (*                                       message, else pieces of the *current* bufferSize;      *)
 (*                                       after each message push (begin, length) on ackChan     *)
 (*                                       (capacity kAckChanBufferSize = 5)                      *)
-(*                pipelineRecvAck        per acknowledgement: pause seen -> ignore count := 7;  *)
+(*                pipelineRecvAck        take an entry from ackChan, read the acknowledgement:  *)
+(*                                       pause seen -> ignore count := 7;                       *)
 (*                                       if count <= 0 or probing: double / end probing /       *)
 (*                                       shrink, else count--                                   *)
 (*   transfer.go  sendFileData           protocol 1: its own size, 1024 at the start of every   *)
@@ -47,6 +48,8 @@ CONSTANTS
     P1MaxChunks,  \* model bound: full chunks per file (protocol 1)
     MaxFiles,     \* model bound: files per transfer
     MaxPauses,    \* model bound: pauses per transfer
+    StartSizes,   \* model: besides a new transfer (InitSize, probing) a run may start like a later
+                  \* file of a transfer: probing over, the size left at one of these values
     Variant       \* "coded" | "noMaxTest" | "noFactor2" | "noFloor"  (design-level mutants)
 
 VARIABLES
@@ -59,13 +62,15 @@ VARIABLES
     sendq,    \* sendDataChan: lengths of the chunks queued
     snd,      \* pipelineSendData: [pc, left, n]
     ackq,     \* ackChan: lengths awaiting their acknowledgement
+    acur,     \* pipelineRecvAck: [pc, len]: the entry taken from ackChan whose acknowledgement is awaited
     ignore,   \* ignoreChunkTimeCount
     armed,    \* a pause happened that an acknowledgement may still see
     p1,       \* protocol 1 loop: [pc, bs, len, n, fin]
-    cnt,      \* [file, pauses, ends]: files begun, pauses, number of times the probing phase ended
-    last      \* the last action with the values it used (for the step invariants)
+    cnt,      \* [file, pauses, ends]: files begun in this run, pauses, number of times the probing phase ended
+    last      \* the last sending / adapting / phase-ending action with the values it used (for the
+              \* step invariants); NoLast after every other action
 
-vars == <<cfg, st, size, phase, tok, enc, sendq, snd, ackq, ignore, armed, p1, cnt, last>>
+vars == <<cfg, st, size, phase, tok, enc, sendq, snd, ackq, acur, ignore, armed, p1, cnt, last>>
 
 Min2(a, b) == IF a < b THEN a ELSE b
 Max2(a, b) == IF a > b THEN a ELSE b
@@ -103,17 +108,31 @@ Did(a) == [NoLast EXCEPT !.act = a, !.before = size, !.after = size, !.ph0 = pha
 
 EncIdle == [pc |-> "idle", cap |-> 0, ph |-> FALSE, n |-> 0, tail |-> 0]
 SndIdle == [pc |-> "loop", left |-> 0, n |-> 0]
+AckIdle == [pc |-> "loop", len |-> 0]
 P1Off   == [pc |-> "off", bs |-> P1Start, len |-> 0, n |-> 0, fin |-> FALSE]
 
-InitWith(c) ==
+InitWith(c, s, ph) ==
     /\ cfg = c
-    /\ st = "gap" /\ size = InitSize /\ phase = TRUE /\ tok = 0
-    /\ enc = EncIdle /\ sendq = <<>> /\ snd = SndIdle /\ ackq = <<>>
+    /\ st = "gap" /\ size = s /\ phase = ph /\ tok = 0
+    /\ enc = EncIdle /\ sendq = <<>> /\ snd = SndIdle /\ ackq = <<>> /\ acur = AckIdle
     /\ ignore = 0 /\ armed = FALSE /\ p1 = P1Off
-    /\ cnt = [file |-> 0, pauses |-> 0, ends |-> 0]
+    /\ cnt = [file |-> 0, pauses |-> 0, ends |-> IF ph THEN 0 ELSE 1]
     /\ last = NoLast
 
-Init == \E c \in Cfgs : InitWith([max |-> c.max, rmax |-> c.max, mode |-> c.mode, proto |-> c.proto])
+(* the same as an explicit assignment (a new run in a trace file) *)
+ResetWith(c, s, ph) ==
+    /\ cfg' = c
+    /\ st' = "gap" /\ size' = s /\ phase' = ph /\ tok' = 0
+    /\ enc' = EncIdle /\ sendq' = <<>> /\ snd' = SndIdle /\ ackq' = <<>> /\ acur' = AckIdle
+    /\ ignore' = 0 /\ armed' = FALSE /\ p1' = P1Off
+    /\ cnt' = [file |-> 0, pauses |-> 0, ends |-> IF ph THEN 0 ELSE 1]
+    /\ last' = NoLast
+
+Init == \E c \in Cfgs :
+          LET r == [max |-> c.max, rmax |-> c.max, mode |-> c.mode, proto |-> c.proto] IN
+            \/ InitWith(r, InitSize, TRUE)
+            \/ \E s \in StartSizes : /\ c.proto >= 2 /\ s >= Floor /\ s <= Max2(c.max, InitSize)
+                                      /\ InitWith(r, s, FALSE)
 
 -----------------------------------------------------------------------------
 (* sendFiles: the next file.  Protocol >= 2: sendFileDataV2 starts fresh goroutines and        *)
@@ -124,39 +143,39 @@ BeginFile ==
     /\ cnt' = [cnt EXCEPT !.file = @ + 1]
     /\ IF Pipe
        THEN /\ enc' = [pc |-> "fill", cap |-> size, ph |-> FALSE, n |-> 0, tail |-> 0]
-            /\ snd' = SndIdle /\ sendq' = <<>> /\ ackq' = <<>> /\ ignore' = 0
+            /\ snd' = SndIdle /\ sendq' = <<>> /\ ackq' = <<>> /\ acur' = AckIdle /\ ignore' = 0
             /\ UNCHANGED p1
        ELSE /\ p1' = [pc |-> "send", bs |-> P1Start, len |-> 0, n |-> 0, fin |-> FALSE]
-            /\ UNCHANGED <<enc, snd, sendq, ackq, ignore>>
-    /\ last' = Did("BeginFile")
+            /\ UNCHANGED <<enc, snd, sendq, ackq, acur, ignore>>
+    /\ last' = NoLast
     /\ UNCHANGED <<cfg, size, phase, tok, armed>>
 
 (* ---------------- the encoder: sendDataWriter.Write / Close ---------------- *)
 EncFull ==        \* the buffer is full: bufInitPhase := b.transfer.bufInitPhase.Load()
     /\ st = "file" /\ Pipe /\ enc.pc = "fill"
     /\ enc' = [enc EXCEPT !.pc = "deliver", !.ph = phase]
-    /\ last' = Did("EncFull")
-    /\ UNCHANGED <<cfg, st, size, phase, tok, sendq, snd, ackq, ignore, armed, p1, cnt>>
+    /\ last' = NoLast
+    /\ UNCHANGED <<cfg, st, size, phase, tok, sendq, snd, ackq, acur, ignore, armed, p1, cnt>>
 
 EncDeliver ==     \* select { sendDataChan <- chunk }
     /\ st = "file" /\ Pipe /\ enc.pc = "deliver" /\ Len(sendq) < SendCap
     /\ sendq' = Append(sendq, enc.cap)
     /\ enc' = [enc EXCEPT !.pc = IF enc.ph THEN "wait" ELSE "renew", !.n = @ + 1]
-    /\ last' = [Did("EncDeliver") EXCEPT !.len = enc.cap]
-    /\ UNCHANGED <<cfg, st, size, phase, tok, snd, ackq, ignore, armed, p1, cnt>>
+    /\ last' = NoLast
+    /\ UNCHANGED <<cfg, st, size, phase, tok, snd, ackq, acur, ignore, armed, p1, cnt>>
 
 EncWait ==        \* if bufInitPhase { <-bufInitChan }
     /\ st = "file" /\ Pipe /\ enc.pc = "wait" /\ tok = 1
     /\ tok' = 0
     /\ enc' = [enc EXCEPT !.pc = "renew"]
-    /\ last' = Did("EncWait")
-    /\ UNCHANGED <<cfg, st, size, phase, sendq, snd, ackq, ignore, armed, p1, cnt>>
+    /\ last' = NoLast
+    /\ UNCHANGED <<cfg, st, size, phase, sendq, snd, ackq, acur, ignore, armed, p1, cnt>>
 
 EncRenew ==       \* b.bufSize = bufferSize.Load(); new buffer of that capacity
     /\ st = "file" /\ Pipe /\ enc.pc = "renew"
     /\ enc' = [enc EXCEPT !.pc = "fill", !.cap = size]
-    /\ last' = Did("EncRenew")
-    /\ UNCHANGED <<cfg, st, size, phase, tok, sendq, snd, ackq, ignore, armed, p1, cnt>>
+    /\ last' = NoLast
+    /\ UNCHANGED <<cfg, st, size, phase, tok, sendq, snd, ackq, acur, ignore, armed, p1, cnt>>
 
 (* the probing phase ends here if it is still on: bufInitPhase.Store(false) *)
 EndOfData(r) ==   \* Close(): r bytes are left in the buffer (0 <= r < cap)
@@ -165,21 +184,21 @@ EndOfData(r) ==   \* Close(): r bytes are left in the buffer (0 <= r < cap)
     /\ cnt' = [cnt EXCEPT !.ends = IF phase THEN @ + 1 ELSE @]
     /\ enc' = [enc EXCEPT !.pc = IF r > 0 THEN "tail" ELSE "flag", !.tail = r]
     /\ last' = [Did("EndOfData") EXCEPT !.len = r, !.ph1 = FALSE]
-    /\ UNCHANGED <<cfg, st, size, tok, sendq, snd, ackq, ignore, armed, p1>>
+    /\ UNCHANGED <<cfg, st, size, tok, sendq, snd, ackq, acur, ignore, armed, p1>>
 
 EncTail ==        \* deliver(the rest)
     /\ st = "file" /\ Pipe /\ enc.pc = "tail" /\ Len(sendq) < SendCap
     /\ sendq' = Append(sendq, enc.tail)
     /\ enc' = [enc EXCEPT !.pc = "flag"]
-    /\ last' = [Did("EncTail") EXCEPT !.len = enc.tail]
-    /\ UNCHANGED <<cfg, st, size, phase, tok, snd, ackq, ignore, armed, p1, cnt>>
+    /\ last' = NoLast
+    /\ UNCHANGED <<cfg, st, size, phase, tok, snd, ackq, acur, ignore, armed, p1, cnt>>
 
 EncFlag ==        \* deliver([]byte{}): the finish flag; then close(sendDataChan)
     /\ st = "file" /\ Pipe /\ enc.pc = "flag" /\ Len(sendq) < SendCap
     /\ sendq' = Append(sendq, 0)
     /\ enc' = [enc EXCEPT !.pc = "done"]
-    /\ last' = Did("EncFlag")
-    /\ UNCHANGED <<cfg, st, size, phase, tok, snd, ackq, ignore, armed, p1, cnt>>
+    /\ last' = NoLast
+    /\ UNCHANGED <<cfg, st, size, phase, tok, snd, ackq, acur, ignore, armed, p1, cnt>>
 
 (* ---------------- pipelineSendData ---------------- *)
 SndTake ==        \* data := <-sendDataChan; bufSize := bufferSize.Load(); whole or split
@@ -188,33 +207,33 @@ SndTake ==        \* data := <-sendDataChan; bufSize := bufferSize.Load(); whole
          snd' = IF c <= size THEN [pc |-> "whole", left |-> 0, n |-> c]
                              ELSE [pc |-> "split", left |-> c, n |-> 0]
     /\ sendq' = Tail(sendq)
-    /\ last' = [Did("SndTake") EXCEPT !.len = Head(sendq)]
-    /\ UNCHANGED <<cfg, st, size, phase, tok, enc, ackq, ignore, armed, p1, cnt>>
+    /\ last' = NoLast
+    /\ UNCHANGED <<cfg, st, size, phase, tok, enc, ackq, acur, ignore, armed, p1, cnt>>
 
 SendChunk ==      \* deliver(data.buffer, len, true): one DATA message with the whole chunk
     /\ st = "file" /\ Pipe /\ snd.pc = "whole"
     /\ snd' = [snd EXCEPT !.pc = "push"]
     /\ last' = [Did("SendChunk") EXCEPT !.len = snd.n, !.ann = snd.n]
-    /\ UNCHANGED <<cfg, st, size, phase, tok, enc, sendq, ackq, ignore, armed, p1, cnt>>
+    /\ UNCHANGED <<cfg, st, size, phase, tok, enc, sendq, ackq, acur, ignore, armed, p1, cnt>>
 
 SndLoadPiece ==   \* bufSize := bufferSize.Load(); if bufSize > left { bufSize = left }
     /\ st = "file" /\ Pipe /\ snd.pc = "split"
     /\ snd' = [snd EXCEPT !.pc = "piece", !.n = Min2(size, snd.left)]
-    /\ last' = Did("SndLoadPiece")
-    /\ UNCHANGED <<cfg, st, size, phase, tok, enc, sendq, ackq, ignore, armed, p1, cnt>>
+    /\ last' = NoLast
+    /\ UNCHANGED <<cfg, st, size, phase, tok, enc, sendq, ackq, acur, ignore, armed, p1, cnt>>
 
 SendPiece ==      \* deliver(data.data[index:nextIdx], bufSize, false)
     /\ st = "file" /\ Pipe /\ snd.pc = "piece"
     /\ snd' = [snd EXCEPT !.pc = "push", !.left = @ - snd.n]
     /\ last' = [Did("SendPiece") EXCEPT !.len = snd.n, !.ann = snd.n]
-    /\ UNCHANGED <<cfg, st, size, phase, tok, enc, sendq, ackq, ignore, armed, p1, cnt>>
+    /\ UNCHANGED <<cfg, st, size, phase, tok, enc, sendq, ackq, acur, ignore, armed, p1, cnt>>
 
 SndAckPush ==     \* select { ackChan <- trzszAck{begin, length} }
     /\ st = "file" /\ Pipe /\ snd.pc = "push" /\ Len(ackq) < AckCap
     /\ ackq' = Append(ackq, snd.n)
     /\ snd' = [snd EXCEPT !.pc = IF snd.left > 0 THEN "split" ELSE "loop", !.n = 0]
-    /\ last' = Did("SndAckPush")
-    /\ UNCHANGED <<cfg, st, size, phase, tok, enc, sendq, ignore, armed, p1, cnt>>
+    /\ last' = NoLast
+    /\ UNCHANGED <<cfg, st, size, phase, tok, enc, sendq, acur, ignore, armed, p1, cnt>>
 
 (* ---------------- pipelineRecvAck ---------------- *)
 Classes == {"fast", "mid", "slow"}
@@ -231,14 +250,23 @@ Shrunk(k) == IF Variant = "noFloor" THEN size \div k ELSE Max2(size \div k, Floo
 (* bufInitDone(): non-blocking send on bufInitChan *)
 Signal == IF phase THEN 1 ELSE tok
 
+AckTake ==        \* for ack := range ackChan
+    /\ st = "file" /\ Pipe /\ acur.pc = "loop" /\ ackq # <<>>
+    /\ acur' = [pc |-> "got", len |-> Head(ackq)]
+    /\ ackq' = Tail(ackq)
+    /\ last' = NoLast
+    /\ UNCHANGED <<cfg, st, size, phase, tok, enc, sendq, snd, ignore, armed, p1, cnt>>
+
+Got == st = "file" /\ Pipe /\ acur.pc = "got"
+
 AckFast(t, k) ==  \* length == bufSize && chunkTime < 500ms && bufSize < MaxBufSize: double
-    /\ st = "file" /\ Pipe /\ ackq # <<>> /\ Adapting
-    /\ DoubleCond(Head(ackq), t)
+    /\ Got /\ Adapting
+    /\ DoubleCond(acur.len, t)
     /\ size' = Dbl(size, cfg.max)
     /\ tok' = Signal
-    /\ ackq' = Tail(ackq)
-    /\ last' = [Did("AckFast") EXCEPT !.len = Head(ackq), !.t = t, !.k = k, !.after = Dbl(size, cfg.max)]
-    /\ UNCHANGED <<cfg, st, phase, enc, sendq, snd, ignore, armed, p1, cnt>>
+    /\ acur' = AckIdle
+    /\ last' = [Did("AckFast") EXCEPT !.len = acur.len, !.t = t, !.k = k, !.after = Dbl(size, cfg.max)]
+    /\ UNCHANGED <<cfg, st, phase, enc, sendq, snd, ackq, ignore, armed, p1, cnt>>
 
 (* else branch, first half: a probing phase that is still on ends (ProbeDone) *)
 ProbeDone ==
@@ -247,45 +275,45 @@ ProbeDone ==
     /\ cnt' = [cnt EXCEPT !.ends = IF phase THEN @ + 1 ELSE @]
 
 AckSlow(t, k) ==  \* chunkTime >= 2s && length <= bufSize: size / seconds, not below 1024
-    /\ st = "file" /\ Pipe /\ ackq # <<>> /\ Adapting
-    /\ ~DoubleCond(Head(ackq), t)
-    /\ t = "slow" /\ Head(ackq) <= size
+    /\ Got /\ Adapting
+    /\ ~DoubleCond(acur.len, t)
+    /\ t = "slow" /\ acur.len <= size
     /\ ProbeDone
     /\ size' = Shrunk(k)
-    /\ ackq' = Tail(ackq)
-    /\ last' = [Did("AckSlow") EXCEPT !.len = Head(ackq), !.t = t, !.k = k, !.after = Shrunk(k), !.ph1 = FALSE]
-    /\ UNCHANGED <<cfg, st, enc, sendq, snd, ignore, armed, p1>>
+    /\ acur' = AckIdle
+    /\ last' = [Did("AckSlow") EXCEPT !.len = acur.len, !.t = t, !.k = k, !.after = Shrunk(k), !.ph1 = FALSE]
+    /\ UNCHANGED <<cfg, st, enc, sendq, snd, ackq, ignore, armed, p1>>
 
 AckMiddle(t, k) ==  \* neither doubling nor shrinking
-    /\ st = "file" /\ Pipe /\ ackq # <<>> /\ Adapting
-    /\ ~DoubleCond(Head(ackq), t)
-    /\ ~(t = "slow" /\ Head(ackq) <= size)
+    /\ Got /\ Adapting
+    /\ ~DoubleCond(acur.len, t)
+    /\ ~(t = "slow" /\ acur.len <= size)
     /\ ProbeDone
-    /\ ackq' = Tail(ackq)
-    /\ last' = [Did("AckMiddle") EXCEPT !.len = Head(ackq), !.t = t, !.k = k, !.ph1 = FALSE]
-    /\ UNCHANGED <<cfg, st, size, enc, sendq, snd, ignore, armed, p1>>
+    /\ acur' = AckIdle
+    /\ last' = [Did("AckMiddle") EXCEPT !.len = acur.len, !.t = t, !.k = k, !.ph1 = FALSE]
+    /\ UNCHANGED <<cfg, st, size, enc, sendq, snd, ackq, ignore, armed, p1>>
 
 AckIgnored ==     \* ignoreChunkTimeCount > 0 and not probing: count--
-    /\ st = "file" /\ Pipe /\ ackq # <<>> /\ ~Adapting
+    /\ Got /\ ~Adapting
     /\ ignore' = ignore - 1
-    /\ ackq' = Tail(ackq)
-    /\ last' = [Did("AckIgnored") EXCEPT !.len = Head(ackq)]
-    /\ UNCHANGED <<cfg, st, size, phase, tok, enc, sendq, snd, armed, p1, cnt>>
+    /\ acur' = AckIdle
+    /\ last' = [Did("AckIgnored") EXCEPT !.len = acur.len]
+    /\ UNCHANGED <<cfg, st, size, phase, tok, enc, sendq, snd, ackq, armed, p1, cnt>>
 
 (* recvCheckV2 reports `pause` together with the acknowledgement it returns *)
 PauseSeen ==
-    /\ st = "file" /\ Pipe /\ cfg.proto >= 3 /\ armed /\ ackq # <<>>
+    /\ Got /\ cfg.proto >= 3 /\ armed
     /\ ignore' = AckCap + 2
     /\ armed' = FALSE
-    /\ last' = Did("PauseSeen")
-    /\ UNCHANGED <<cfg, st, size, phase, tok, enc, sendq, snd, ackq, p1, cnt>>
+    /\ last' = NoLast
+    /\ UNCHANGED <<cfg, st, size, phase, tok, enc, sendq, snd, ackq, acur, p1, cnt>>
 
 Pause ==          \* environment: pauseTransferringFiles() ... resumeTransferringFiles()
     /\ st = "file" /\ cfg.proto >= 3
     /\ armed' = TRUE
     /\ cnt' = [cnt EXCEPT !.pauses = @ + 1]
-    /\ last' = Did("Pause")
-    /\ UNCHANGED <<cfg, st, size, phase, tok, enc, sendq, snd, ackq, ignore, p1>>
+    /\ last' = NoLast
+    /\ UNCHANGED <<cfg, st, size, phase, tok, enc, sendq, snd, ackq, acur, ignore, p1>>
 
 (* ---------------- protocol 1: sendFileData ---------------- *)
 P1Send(len, x, fin) ==   \* read min(bufSize, rest) bytes; sendData: escape, then announce
@@ -293,7 +321,7 @@ P1Send(len, x, fin) ==   \* read min(bufSize, rest) bytes; sendData: escape, the
     /\ len >= 1 /\ len <= p1.bs
     /\ p1' = [p1 EXCEPT !.pc = "ack", !.len = len, !.fin = fin, !.n = IF len = p1.bs THEN @ + 1 ELSE @]
     /\ last' = [Did("P1Send") EXCEPT !.len = len, !.ann = len, !.ext = x, !.before = p1.bs, !.after = p1.bs]
-    /\ UNCHANGED <<cfg, st, size, phase, tok, enc, sendq, snd, ackq, ignore, armed, cnt>>
+    /\ UNCHANGED <<cfg, st, size, phase, tok, enc, sendq, snd, ackq, acur, ignore, armed, cnt>>
 
 P1DoubleCond(t) == p1.len = p1.bs /\ t = "fast" /\ (Variant = "noMaxTest" \/ p1.bs < cfg.max)
 
@@ -303,43 +331,43 @@ P1AckFast(t, k) ==
     /\ st = "file" /\ ~Pipe /\ p1.pc = "ack" /\ P1DoubleCond(t)
     /\ p1' = [p1 EXCEPT !.pc = P1Next, !.bs = Dbl(p1.bs, cfg.max)]
     /\ last' = [Did("P1AckFast") EXCEPT !.len = p1.len, !.t = t, !.k = k, !.before = p1.bs, !.after = Dbl(p1.bs, cfg.max)]
-    /\ UNCHANGED <<cfg, st, size, phase, tok, enc, sendq, snd, ackq, ignore, armed, cnt>>
+    /\ UNCHANGED <<cfg, st, size, phase, tok, enc, sendq, snd, ackq, acur, ignore, armed, cnt>>
 
 P1AckReset(t, k) ==  \* chunkTime >= 2s && bufSize > 1024: back to 1024
     /\ st = "file" /\ ~Pipe /\ p1.pc = "ack" /\ ~P1DoubleCond(t)
     /\ t = "slow" /\ p1.bs > P1Start
     /\ p1' = [p1 EXCEPT !.pc = P1Next, !.bs = P1Start]
     /\ last' = [Did("P1AckReset") EXCEPT !.len = p1.len, !.t = t, !.k = k, !.before = p1.bs, !.after = P1Start]
-    /\ UNCHANGED <<cfg, st, size, phase, tok, enc, sendq, snd, ackq, ignore, armed, cnt>>
+    /\ UNCHANGED <<cfg, st, size, phase, tok, enc, sendq, snd, ackq, acur, ignore, armed, cnt>>
 
 P1AckKeep(t, k) ==
     /\ st = "file" /\ ~Pipe /\ p1.pc = "ack" /\ ~P1DoubleCond(t)
     /\ ~(t = "slow" /\ p1.bs > P1Start)
     /\ p1' = [p1 EXCEPT !.pc = P1Next]
     /\ last' = [Did("P1AckKeep") EXCEPT !.len = p1.len, !.t = t, !.k = k, !.before = p1.bs, !.after = p1.bs]
-    /\ UNCHANGED <<cfg, st, size, phase, tok, enc, sendq, snd, ackq, ignore, armed, cnt>>
+    /\ UNCHANGED <<cfg, st, size, phase, tok, enc, sendq, snd, ackq, acur, ignore, armed, cnt>>
 
 P1Empty ==        \* a file of size 0: the loop body never runs
     /\ st = "file" /\ ~Pipe /\ p1.pc = "send" /\ p1.n = 0 /\ p1.len = 0
     /\ p1' = [p1 EXCEPT !.pc = "end"]
-    /\ last' = Did("P1Empty")
-    /\ UNCHANGED <<cfg, st, size, phase, tok, enc, sendq, snd, ackq, ignore, armed, cnt>>
+    /\ last' = NoLast
+    /\ UNCHANGED <<cfg, st, size, phase, tok, enc, sendq, snd, ackq, acur, ignore, armed, cnt>>
 
 (* ---------------- end of a file, end of the transfer ---------------- *)
-Drained == IF Pipe THEN enc.pc = "done" /\ sendq = <<>> /\ snd.pc = "loop" /\ ackq = <<>>
+Drained == IF Pipe THEN enc.pc = "done" /\ sendq = <<>> /\ snd.pc = "loop" /\ ackq = <<>> /\ acur.pc = "loop"
                    ELSE p1.pc = "end"
 
 FileDone ==       \* pipelineRecvFinalAck ... sendFileMD5
     /\ st = "file" /\ Drained
     /\ st' = "gap"
-    /\ last' = Did("FileDone")
-    /\ UNCHANGED <<cfg, size, phase, tok, enc, sendq, snd, ackq, ignore, armed, p1, cnt>>
+    /\ last' = NoLast
+    /\ UNCHANGED <<cfg, size, phase, tok, enc, sendq, snd, ackq, acur, ignore, armed, p1, cnt>>
 
 Finish ==
     /\ st = "gap" /\ cnt.file >= 1
     /\ st' = "done"
-    /\ last' = Did("Finish")
-    /\ UNCHANGED <<cfg, size, phase, tok, enc, sendq, snd, ackq, ignore, armed, p1, cnt>>
+    /\ last' = NoLast
+    /\ UNCHANGED <<cfg, size, phase, tok, enc, sendq, snd, ackq, acur, ignore, armed, p1, cnt>>
 
 Done == st = "done" /\ UNCHANGED vars
 
@@ -364,7 +392,7 @@ MP1AckKeep == \E t \in Classes : \E k \in KOf(t) : P1AckKeep(t, k)
 Step ==
     \/ MBeginFile \/ MEncFull \/ EncDeliver \/ EncWait \/ EncRenew \/ MEndOfData \/ EncTail \/ EncFlag
     \/ SndTake \/ SendChunk \/ SndLoadPiece \/ SendPiece \/ SndAckPush
-    \/ MAckFast \/ MAckSlow \/ MAckMiddle \/ AckIgnored \/ PauseSeen \/ MPause
+    \/ AckTake \/ MAckFast \/ MAckSlow \/ MAckMiddle \/ AckIgnored \/ PauseSeen \/ MPause
     \/ MP1Send \/ MP1AckFast \/ MP1AckReset \/ MP1AckKeep \/ P1Empty
     \/ FileDone \/ Finish
 
@@ -383,6 +411,7 @@ TypeOK ==
     /\ enc.cap \in Int /\ enc.ph \in BOOLEAN /\ enc.n \in Nat /\ enc.tail \in Nat
     /\ Len(sendq) <= SendCap /\ Len(ackq) <= AckCap
     /\ snd.pc \in {"loop", "whole", "split", "piece", "push"} /\ snd.left \in Nat /\ snd.n \in Nat
+    /\ acur.pc \in {"loop", "got"} /\ acur.len \in Nat
     /\ ignore \in 0..(AckCap + 2) /\ armed \in BOOLEAN
     /\ p1.pc \in {"off", "send", "ack", "end"} /\ p1.bs \in Int /\ p1.fin \in BOOLEAN
     /\ last.t \in Strs
@@ -423,7 +452,7 @@ ProbeEndsOnce ==
 
 (* a token is only ever in the channel while the encoder waits for it, and the encoder only     *)
 (* waits while the chunk it delivered is still on its way or its token is there                 *)
-InFlight == Len(sendq) + Len(ackq) + (IF snd.pc = "loop" THEN 0 ELSE 1)
+InFlight == Len(sendq) + Len(ackq) + (IF snd.pc = "loop" THEN 0 ELSE 1) + (IF acur.pc = "loop" THEN 0 ELSE 1)
 TokenPaired == tok = 1 => enc.pc = "wait"
 EncoderNotStuck == enc.pc = "wait" => (tok = 1 \/ InFlight > 0)
 OneChunkWhileProbing == (phase /\ enc.pc \in {"fill", "deliver", "renew"}) => InFlight = 0
